@@ -9,8 +9,9 @@ class FastTime:
         return _time.time()
 
 class CacheUser:
-    def __init__(self, logpath, delay, n_lines=5, rendezvous=0):
+    def __init__(self, logpath, delay, n_lines=5, rendezvous=0, nest=0):
         self.logpath, self.delay, self.n_lines, self.rendezvous = logpath, delay, n_lines, rendezvous
+        self.nest = nest      # how many further get_set calls on the same key are nested inside the first one
         self._met = False
 
     def _meet(self):
@@ -41,8 +42,12 @@ class CacheUser:
             for i in range(self.n_lines):
                 _time.sleep(self.delay)
                 yield f"{key}-line{i}"
-        with CobaContext.cacher.get_set(key, getter) as f:
-            lines = [l.rstrip("\n") for l in f]
+        def read(depth):
+            with CobaContext.cacher.get_set(key, getter) as f:
+                if depth > 0:
+                    return read(depth - 1)
+                return [l.rstrip("\n") for l in f]
+        lines = read(self.nest)
         yield (tuple(item), lines, os.getpid())
 
 from contextlib import nullcontext
